@@ -59,8 +59,23 @@ def lazy_scans_xarray(run, rng, n):
                 arr = da.from_array(vals, chunks=(chunks,))
                 if kind == "scan":
                     func = rng.choice(["nancumsum", "ffill", "bfill"])
-                    desc["func"] = func
-                    out = flox.groupby_scan(arr, labels, func=func)
+                    pattern = rng.choice(["random", "all-distinct", "constant", "length-1 axis"])
+                    v2 = vals.copy()
+                    if rng.random() < 0.5:
+                        v2[rng.randrange(m)] = np.nan
+                    if rng.random() < 0.25 and func == "nancumsum":
+                        v2 = np.nan_to_num(v2).astype(rng.choice(["int64", "int8", "float32"]))
+                    lab2 = labels
+                    if pattern == "all-distinct":       # the 'nothing to scan' shortcut must stay lazy too
+                        lab2 = np.array(rng.sample(range(m + 3), m))
+                    elif pattern == "constant":
+                        lab2 = np.zeros(m, dtype=int)
+                    arr2 = da.from_array(v2, chunks=(chunks,))
+                    if pattern == "length-1 axis":
+                        arr2 = da.from_array(v2.reshape(m, 1), chunks=(chunks, (1,)))
+                        lab2 = np.array([rng.randrange(3)])
+                    desc.update(func=func, pattern=pattern, vals=[I.fnum(x) for x in np.asarray(v2, dtype=float).reshape(-1)], labels=lab2.tolist(), dtype=str(v2.dtype))
+                    out = flox.groupby_scan(arr2, lab2, func=func)
                     lazy = isinstance(out, da.Array)
                 elif kind == "rechunk":
                     out = flox.rechunk_for_blockwise(arr, axis=0, labels=np.sort(labels))
